@@ -766,8 +766,15 @@ impl SurfGen {
             };
         }
         match r.below(14) {
-            0 | 1 => SG::Conj((0..1 + r.below(3)).map(|_| self.goal(r, scope, depth - 1, kinds)).collect()),
-            2 | 3 => SG::Op("conde", (0..2 + r.below(2)).map(|_| (0..1 + r.below(2)).map(|_| self.goal(r, scope, depth - 1, kinds)).collect()).collect()),
+            // degenerate sizes are part of the surface syntax: `[]` (succeeds once), a conde with ONE clause, an empty
+            // clause `[]`, an empty fresh body (seeded changes C14-f, C05-f)
+            0 | 1 => SG::Conj((0..if r.chance(1, 8) { 0 } else { 1 + r.below(3) }).map(|_| self.goal(r, scope, depth - 1, kinds)).collect()),
+            2 | 3 => SG::Op(
+                "conde",
+                (0..if r.chance(1, 6) { 1 } else { 2 + r.below(2) })
+                    .map(|_| (0..if r.chance(1, 10) { 0 } else { 1 + r.below(2) }).map(|_| self.goal(r, scope, depth - 1, kinds)).collect())
+                    .collect(),
+            ),
             4 | 5 | 6 if kinds.fresh => {
                 // fresh variables, often shadowing a name already in scope
                 let k = 1 + r.below(2);
@@ -780,7 +787,7 @@ impl SurfGen {
                 }
                 let depth0 = scope.len();
                 scope.extend(ns.iter().cloned());
-                let body: Vec<SG> = (0..1 + r.below(3)).map(|_| self.goal(r, scope, depth - 1, kinds)).collect();
+                let body: Vec<SG> = (0..if r.chance(1, 10) { 0 } else { 1 + r.below(3) }).map(|_| self.goal(r, scope, depth - 1, kinds)).collect();
                 scope.truncate(depth0);
                 SG::Fresh(ns, body)
             }
@@ -803,7 +810,9 @@ impl SurfGen {
             let nalts = if r.chance(1, 4) { 2 } else { 1 };
             let mut ps: Vec<ST> = vec![];
             for _ in 0..nalts {
-                ps.push(self.term(r, scope, 2, true));
+                // an arm whose WHOLE pattern is `_` (it matches anything: in matcha/matchu the match itself is the
+                // committed-choice test of the arm, whatever its body does — seeded change C13-f)
+                ps.push(if r.chance(1, 5) { ST::Any } else { self.term(r, scope, 2, true) });
             }
             // with alternatives every pattern must bind the names the body uses: bodies of multi-alternative
             // arms mention only the names common to all alternatives (the macro expands the body per alternative)
@@ -821,8 +830,17 @@ impl SurfGen {
             let partial: Vec<String> = union.iter().filter(|n| !common.contains(n)).cloned().collect();
             let mut body_scope: Vec<String> = scope.iter().filter(|n| !partial.contains(n)).cloned().collect();
             body_scope.extend(common.iter().cloned());
+            let whole_any = ps.iter().all(|p| matches!(p, ST::Any));
             let body: Vec<SG> = if body_scope.is_empty() {
                 vec![]
+            } else if whole_any && kinds.calls && r.chance(1, 2) {
+                // a body whose FIRST goal has several answers, or fails: the commitment must not depend on it
+                let x = ST::Var(r.pick(&body_scope).clone());
+                if r.chance(1, 2) {
+                    vec![SG::Call("member", vec![x, ST::List(vec![ST::Num(1), ST::Num(2), ST::Num(3)])])]
+                } else {
+                    vec![SG::Eq(x.clone(), ST::Num(7)), SG::Eq(x, ST::Num(8))]
+                }
             } else {
                 (0..r.below(3)).map(|_| self.goal(r, &mut body_scope, depth.saturating_sub(1), kinds)).collect()
             };
